@@ -46,7 +46,7 @@ var resources = []resource{
 }
 
 // selecting-header pools by normalisation class (q-value classes are not generated here)
-var varyFields = []string{"X-A", "X-B", "Content-Language", "User-Agent", "Authorization", "If-Unmodified-Since"}
+var varyFields = []string{"X-A", "X-B", "Content-Language", "User-Agent", "Authorization", "If-Unmodified-Since", "Accept-Encoding", "Te", "Accept"}
 
 var fieldValues = map[string][]string{
 	"X-A":                 {"1", "2", "1X-B2", "", "a, b", "b, a", "1 ", "é", "caf\xe9", "caf\xe8"},
@@ -55,10 +55,15 @@ var fieldValues = map[string][]string{
 	"User-Agent":          {"Go-Client/1", "go-client/1", "GO-CLIENT/1", "other", "caf\xe9/1.0", "caf\xe8/1.0", "CAF\xe9/1.0"},
 	"Authorization":       {"Basic abc", "BASIC abc", "basic abc", "Basic ABC", "Bearer t"},
 	"If-Unmodified-Since": {"Sat, 01 Jan 2000 00:00:00 GMT", " Sat, 01 Jan 2000 00:00:00 GMT ", "Sun, 02 Jan 2000 00:00:00 GMT"},
+	// the q-value classes: plain token lists (whose equivalence is order, white space, duplicates and the
+	// x-gzip / x-compress aliases, whatever a cache makes of q-values) and a few weighted ones
+	"Accept-Encoding": {"gzip, br", "br, gzip", "br,gzip", "gzip", "x-gzip, br", "xx-gzip", "xgzip", "gzip;q=0.5, br", "br, gzip;q=0.5", "identity"},
+	"Te":              {"trailers, gzip", "gzip, trailers", "gzip,trailers", "trailers", "x-gzip, trailers"},
+	"Accept":          {"text/html, application/json", "application/json, text/html", "text/html", "text/html;q=0.9, */*;q=0.1"},
 }
 
 var varyConfigs = []string{"", "X-A", "X-A, X-B", "X-B, X-A", "x-a", "*", "X-A, *", "Content-Language", "User-Agent", "Authorization",
-	"X-A|X-B", "If-Unmodified-Since", "X-A,,X-B",
+	"X-A|X-B", "If-Unmodified-Since", "X-A,,X-B", "Accept-Encoding", "TE", "Accept", "accept-encoding, X-A",
 	// fields the cache itself adds to a validation request; names that are not tokens / not valid UTF-8
 	"If-None-Match", "If-Modified-Since", "X-A, If-None-Match", "X-\xe9", "*, X-\xe9", "X-A, x-\xff\xfe"}
 
